@@ -7,7 +7,7 @@ import json, os, shutil, subprocess, sys, time
 
 tag, prop, tests, needs = sys.argv[1], sys.argv[2], sys.argv[3], sys.argv[4]
 src = '/tmp/seed-out/' + tag
-wt = '/tmp/wt-confirm'
+wt = os.environ.get('CONFIRM_WT', '/tmp/wt-confirm')   # several confirmations may run in parallel in different worktrees
 V = os.path.dirname(os.path.dirname(os.path.abspath(__file__)))
 
 
@@ -20,14 +20,14 @@ head = sh('git -C /repo rev-parse --short HEAD')[1].strip()
 if not os.path.exists(wt):
     rc, o = sh('git -C /repo worktree add -q --detach %s HEAD && cd %s && autoreconf -fi >/dev/null 2>&1 && ./configure -q >/dev/null 2>&1' % (wt, wt))
     assert rc == 0, o
-rc, o = sh('git checkout -q -- . && git checkout -q --detach %s && make -j12 >/dev/null 2>&1' % head, cwd=wt)
+rc, o = sh('git checkout -q -- . && git checkout -q --detach %s && make -j4 >/dev/null 2>&1' % head, cwd=wt)
 assert rc == 0, o
 log = {}
 rc0, o0 = sh('sh %s/run_demo.sh %s' % (src, wt))
 log['demo_unmodified'] = {'exit': rc0, 'tail': o0[-600:]}
 rc, o = sh('git apply %s/patch.diff' % src, cwd=wt)
 assert rc == 0, 'patch does not apply to HEAD: ' + o
-rcb, ob = sh('make -j12 2>&1 | tail -5', cwd=wt)
+rcb, ob = sh('make -j4 2>&1 | tail -5', cwd=wt)
 log['build_with_change'] = {'exit': rcb}
 rc1, o1 = sh('sh %s/run_demo.sh %s' % (src, wt))
 log['demo_with_change'] = {'exit': rc1, 'tail': o1[-600:]}
@@ -35,7 +35,10 @@ t0 = time.time()
 rct, ot = sh('make check TESTS="%s" 2>&1 | grep -E "^(PASS|FAIL|ERROR)|^# (TOTAL|PASS|FAIL|ERROR)"' % tests, cwd=wt + '/tests')
 log['tests_with_change'] = {'tests': tests, 'result': ot.strip().splitlines(), 'wall_s': round(time.time() - t0)}
 sh('git checkout -q -- .', cwd=wt)
-# checks against the change applied to /repo (reverted immediately)
+# checks against the change applied to /repo (reverted immediately); serialised across parallel confirmations
+import fcntl
+_lock = open('/tmp/confirm-seed.lock', 'w')
+fcntl.flock(_lock, fcntl.LOCK_EX)
 rc, o = sh('git -C /repo apply %s/patch.diff' % src)
 assert rc == 0, o
 fired = {}
@@ -51,6 +54,7 @@ finally:
 for c in man['checks']:
     if c['property_id'] in fired:
         sh(c['quick_cmd'], cwd=V)
+fcntl.flock(_lock, fcntl.LOCK_UN)
 log['checks_that_fire'] = fired
 ok = rc0 == 0 and rc1 != 0 and rcb == 0 and all(l.startswith('PASS') or l.startswith('#') for l in log['tests_with_change']['result']) and \
     any(l.startswith('# FAIL:  0') or l.startswith('# FAIL: 0') for l in log['tests_with_change']['result'])
